@@ -233,4 +233,147 @@ theorem checkout_idempotent (cfg : Cfg) (hr : cfg.relink = false) (cache : List 
         simp [needsWork, this, hr, hcache k o ht]
   simp [checkout, hd, hw]
 
+
+/-! ### link types: after a relinking checkout every file is linked the configured way -/
+
+/-- the file is linked the way `τ` asks: that kind, and (for links) pointing at its cache object -/
+def Settled (τ : LinkKind) (f : WFile) : Prop := f.link = τ ∧ (τ ≠ .copy → f.toCache = true)
+
+theorem needsRelink_single (τ : LinkKind) (f : WFile) (h : needsRelink [τ] f true = false) : Settled τ f := by
+  unfold needsRelink at h
+  cases τ <;> cases hl : f.link <;> simp [hl, needsRelink, Settled] at h ⊢ <;> exact h
+
+theorem checkoutEntry_force_link (cfg : Cfg) (hf : cfg.force = true) (cache : List Oid) (w : Ws) (failed : List Key)
+    (e : Key × Oid) (hc : inCache cache e.2 = true) :
+    ∃ w', checkoutEntry cfg cache (w, failed) e = some (w', failed) ∧
+      (∃ f, w'.lookup e.1 = some f ∧ f.oid = e.2 ∧ Settled (linkKindOf cfg) f) ∧
+      ∀ k, k ≠ e.1 → w'.lookup k = w.lookup k := by
+  unfold checkoutEntry
+  simp only [hc, if_true]
+  split
+  · refine ⟨_, rfl, ⟨{ oid := e.2, link := linkKindOf cfg, toCache := true }, by rw [AList.lookup_set]; simp, rfl, rfl, fun _ => rfl⟩, ?_⟩
+    intro k hk
+    rw [AList.lookup_set]
+    have h1 : ¬ e.1 = k := fun h => hk h.symm
+    simp [h1]
+  · rename_i f hl
+    split
+    · rename_i hcond
+      simp only [Bool.and_eq_true, decide_eq_true_eq] at hcond
+      refine ⟨w, rfl, ⟨f, hl, hcond.1.2, ?_, ?_⟩, fun _ _ => rfl⟩
+      · rw [hcond.2]; exact hcond.1.1.2
+      · intro hne; exact absurd hcond.2 hne
+    · rw [guardedRemove_force cfg hf]
+      refine ⟨_, rfl, ⟨{ oid := e.2, link := linkKindOf cfg, toCache := true }, by rw [AList.lookup_set]; simp, rfl, rfl, fun _ => rfl⟩, ?_⟩
+      intro k hk
+      rw [AList.lookup_set, AList.lookup_erase]
+      have h1 : ¬ e.1 = k := fun h => hk h.symm
+      simp [h1]
+
+theorem workAll_force_link (cfg : Cfg) (hf : cfg.force = true) (cache : List Oid) : ∀ (es : List (Key × Oid))
+    (w : Ws) (failed : List Key), (∀ e ∈ es, inCache cache e.2 = true) →
+    ∃ w', workAll cfg cache es (w, failed) = (none, (w', failed)) ∧
+      (∀ e ∈ es, ∃ f, w'.lookup e.1 = some f ∧ Settled (linkKindOf cfg) f) ∧
+      (∀ k, (∀ e ∈ es, e.1 ≠ k) → w'.lookup k = w.lookup k) := by
+  intro es
+  induction es with
+  | nil => intro w failed _; exact ⟨w, rfl, by simp, fun _ _ => rfl⟩
+  | cons e r ih =>
+    intro w failed hc
+    obtain ⟨w1, h1, ⟨f1, hf1, _, hs1⟩, hother⟩ := checkoutEntry_force_link cfg hf cache w failed e (hc e (by simp))
+    obtain ⟨w', h2, hall, hrest⟩ := ih w1 failed (fun x hx => hc x (List.mem_cons_of_mem _ hx))
+    refine ⟨w', by simp only [workAll, h1]; exact h2, ?_, ?_⟩
+    · intro x hx
+      rcases List.mem_cons.mp hx with rfl | hx
+      · by_cases hin : ∃ y ∈ r, y.1 = x.1
+        · obtain ⟨y, hy, hk⟩ := hin
+          obtain ⟨f, hf', hs⟩ := hall y hy
+          exact ⟨f, by rw [← hk]; exact hf', hs⟩
+        · have : ∀ y ∈ r, y.1 ≠ x.1 := fun y hy hk => hin ⟨y, hy, hk⟩
+          rw [hrest x.1 this]
+          exact ⟨f1, hf1, hs1⟩
+      · exact hall x hx
+    · intro k hk
+      rw [hrest k (fun y hy => hk y (List.mem_cons_of_mem _ hy))]
+      exact hother k (fun h => hk e (by simp) h.symm)
+
+/-- **C10: link types.** A forced, relinking checkout with one configured link type `τ` of a cached target
+    leaves *every* file of the workspace linked as `τ` (and, for hard and symbolic links, to its cache
+    object) — from any prior workspace with any mixture of link kinds, for any iteration orders. -/
+theorem checkout_relinks (cfg : Cfg) (hf : cfg.force = true) (hr : cfg.relink = true) (τ : LinkKind)
+    (ht : cfg.types = [τ]) (cache : List Oid) (ws : Ws) (target : Target) (delOrder workOrder : List Key)
+    (hcache : ∀ k o, target.lookup k = some o → inCache cache o = true)
+    (hdel : ∀ k, (ws.lookup k).isSome = true → k ∈ delOrder)
+    (hwork : ∀ k, (target.lookup k).isSome = true → k ∈ workOrder) :
+    ∀ k f, (checkout cfg cache ws target delOrder workOrder).ws.lookup k = some f → Settled τ f := by
+  have hτ : linkKindOf cfg = τ := by simp [linkKindOf, ht]
+  have hworkmem : ∀ e ∈ workOf cfg cache ws target workOrder, target.lookup e.1 = some e.2 := by
+    intro e he
+    simp only [workOf, List.mem_filterMap] at he
+    obtain ⟨k, _, hk⟩ := he
+    split at hk
+    · rename_i o ho
+      split at hk
+      · injection hk with hk; subst hk; exact ho
+      · cases hk
+    · cases hk
+  -- a target file that needs no work is already settled
+  have hnowork : ∀ k o, target.lookup k = some o → (∀ e ∈ workOf cfg cache ws target workOrder, e.1 ≠ k) →
+      ∀ f, ws.lookup k = some f → Settled τ f := by
+    intro k o ho hno f hl
+    have hk := hwork k (by simp [ho])
+    have : needsWork cfg cache (ws.lookup k) o = false := by
+      cases hn : needsWork cfg cache (ws.lookup k) o with
+      | false => rfl
+      | true =>
+        exfalso
+        apply hno (k, o) _ rfl
+        simp only [workOf, List.mem_filterMap]
+        exact ⟨k, hk, by simp [ho, hn]⟩
+    unfold needsWork at this
+    rw [hl] at this
+    simp only at this
+    split at this
+    · cases this
+    · simp only [hr, if_true, ht, hcache k o ho] at this
+      exact needsRelink_single τ f this
+  -- what is in the workspace afterwards is a target file (everything else was deleted)
+  have hconv := checkout_converges cfg hf cache ws target delOrder workOrder hcache hdel hwork
+  intro k f hk
+  have htk : target.lookup k = some f.oid := by
+    have := hconv.2 k
+    simp only [oidAt, hk, Option.map_some] at this
+    exact this.symm
+  revert hk
+  unfold checkout
+  simp only
+  split
+  · intro hk
+    rename_i hempty
+    simp only [Bool.and_eq_true, List.isEmpty_iff] at hempty
+    exact hnowork k f.oid htk (by rw [hempty.2]; simp) f hk
+  · obtain ⟨hd1, hd2⟩ := delAll_force cfg hf cache (deletedOf ws target delOrder) ws
+    cases hdel' : delAll cfg cache (deletedOf ws target delOrder) ws with
+    | mk r1 w1 =>
+      rw [hdel'] at hd1 hd2
+      simp only at hd1 hd2
+      subst hd1
+      simp only
+      obtain ⟨w2, hw2, hall, hrest⟩ := workAll_force_link cfg hf cache (workOf cfg cache ws target workOrder) w1 []
+        (fun e he => hcache e.1 e.2 (hworkmem e he))
+      rw [hw2]
+      simp only [List.isEmpty_nil, if_true]
+      intro hk
+      by_cases hin : ∃ e ∈ workOf cfg cache ws target workOrder, e.1 = k
+      · obtain ⟨e, he, hek⟩ := hin
+        obtain ⟨f', hl', hs⟩ := hall e he
+        rw [hek, hk] at hl'
+        injection hl' with hl'
+        rw [hl', ← hτ]; exact hs
+      · have hno : ∀ e ∈ workOf cfg cache ws target workOrder, e.1 ≠ k := fun e he hek => hin ⟨e, he, hek⟩
+        rw [hrest k hno, hd2 k] at hk
+        split at hk
+        · cases hk
+        · exact hnowork k f.oid htk hno f hk
+
 end DvcData.Checkout
